@@ -128,6 +128,26 @@ theorem allow_list_exact :
 theorem lock_balance : balanced balance = true := by
   decide
 
+/-- C19 "never read and write the same memory without synchronisation", lazily initialised fields: the gRPC client of the
+cloud provider (`grpcCloudProvider.client`, dialled on first use while binds / unbinds / resync / releases of DIFFERENT
+pods run concurrently under their own per-pod locks) is guarded by its `sync.Once`: in the regenerated table its only
+write is inside `init.Do`, and every read comes after a call that went through that `Do` (`connect()` at function
+entry), which orders it behind the initialisation.  Same rule for every other field guarded by a Once (minus the
+allow-listed known finding). -/
+theorem lazy_fields_initialised_once :
+    guardOf table.guards F_cloudprovider_grpcCloudProvider_client = .lock L_once_cloudprovider_grpcCloudProvider_init ∧
+    lazyLocks.contains L_once_cloudprovider_grpcCloudProvider_init = true ∧
+    lazyOk table lazyLocks = true := by
+  decide +kernel
+
+/-- Non-vacuity: the table has the write and the reads of the lazily initialised client; a check-then-set without the Once
+(read and write with no lock held) is rejected. -/
+example : (lazyAccesses table lazyLocks).length ≥ 4 ∧
+    ((lazyAccesses table lazyLocks).filter fun a => a.kind == .write).length ≥ 2 ∧
+    accessOk table ⟨0, F_cloudprovider_grpcCloudProvider_client, .write, [], ""⟩ = false ∧
+    accessOk table ⟨0, F_cloudprovider_grpcCloudProvider_client, .read, [], ""⟩ = false := by
+  decide +kernel
+
 /-- C19 "never read and write the same memory without synchronisation", objects of the informer caches: a value obtained
 from any `…Lister….Get/List` call or handed to an informer event handler is the ONE object every other goroutine
 reads; in the regenerated table of their uses (where obtained, to which same-package function passed — parameter taint
